@@ -77,8 +77,12 @@ fn main() {
         "C02" => c_raw::check_c02(&ctx),
         "C03" => c_vec::check_c03(&ctx),
         "C04" => c_vec::check_c04(&ctx),
+        "C07" => c_vec::check_c07(&ctx),
+        "C08" => c_vec::check_c08(&ctx),
+        "C20" => c_vec::check_c20(&ctx),
         "C05" => c_crash::check_c05(&ctx),
         "C12" => c_crash::check_c12(&ctx),
+        "C13" => c_vec::check_c13(&ctx),
         "C13raw" => {
             let report = common::Report::new("C13");
             let c = c_raw::c13_raw_campaign(&ctx, &report, ctx.secs(10.0, 60.0));
